@@ -21,7 +21,14 @@ the library calls `ast.*` and `DiGraph.add_edge / has_node / ...`.  Private help
           feature_version), is not under a handler that swallows SyntaxError and lets the scan go on without the file, and its
           result itself is what is wrapped for the collector
   C02.R5  converse: import records are created only by the collector; the graph adds an import edge importer -> importee exactly when
-          both are known nodes, distinct (after flattening) and the edge is not present yet - for no other reason is it dropped
+          both are known nodes, distinct (after flattening) and the edge is not present yet - for no other reason is it dropped.
+          Decided twice: symbolically (one opaque record, every path; construction that is first recorded in native collections and
+          materialised later is followed through the collections: c02_sym.OpenInfo) and on constants (`run_r5_samples`: the whole
+          constructor interpreted on 14 sample imports x 4 level limits with a concrete model of the networkx graph, the result read back
+          through `nodes` / `edges` / `parent_child_relationship` and compared with the demanded edge set - a mismatch is a VIOLATION with
+          a concrete counterexample; when the symbolic analysis has no verdict the decision on constants stands in for it)
+  C02.R4  (anchor) a spelling of "importer minus its last `level` components" that the term comparison does not know is decided on
+          concrete importers and levels (`anchor_by_samples`)
 """
 
 from __future__ import annotations
@@ -34,7 +41,7 @@ from core.loader import AnalysisError, FuncInfo as FuncInfoT, Repo, calls_in, no
 from core.report import Result
 
 from . import c02_builtins  # noqa: F401  (installs the full interpreter into Explorer)
-from .c02_sym import ANode, App, Cat, Explorer, Inst, Run, Sym, Term, Unsupported, cat, dataclass_eq, mentions, show
+from .c02_sym import ANode, App, Cat, Explorer, Inst, Run, Sym, Term, Unsupported, cat, dataclass_eq, mentions, show, subterms
 from .common import callees_of, reachable_funcs, stmt_of, types_of, where
 
 CONVERTER = "pytestarch.eval_structure_generation.file_import.converter"
@@ -361,11 +368,62 @@ def split_anchor(t: Any) -> tuple[Any, Any]:
     return t, None
 
 
+CONV_INTERNAL = {"root", "root.pkg", "root.pkg.mod", "root.pkg.sub", "root.pkg.sub.leaf", "root.pkg.sub.sib", "root.pkg.sub.sib.deep", "root.other", "root.other.thing"}
+CONV_IMPORTER = "root.pkg.sub.leaf"
+# (statement class, names, module part, level) -> importees the property demands for the importer above
+CONV_SAMPLES = [
+    ("Import", ["root.other", "os.path"], None, 0, ["root.other", "os.path"]),
+    ("ImportFrom", ["thing", "nothing"], "root.other", 0, ["root.other.thing", "root.other"]),
+    ("ImportFrom", ["pkg"], "root", 0, ["root.pkg"]),
+    ("ImportFrom", ["sib", "nomod"], None, 1, ["root.pkg.sub.sib", "root.pkg.sub.nomod"]),
+    ("ImportFrom", ["deep", "nothing"], "sib", 1, ["root.pkg.sub.sib.deep", "root.pkg.sub.sib"]),
+    ("ImportFrom", ["x"], "mod", 2, ["root.pkg.mod"]),
+    ("ImportFrom", ["other", "thing"], None, 3, ["root.other", "root.thing"]),
+    ("ImportFrom", ["thing"], "other", 3, ["root.other.thing"]),
+]
+
+
+def run_conv_samples(repo: Repo, gram: dict) -> tuple[str, str]:
+    """The collector interpreted on constant trees (one import statement per form, nested in a function body and an else branch), its
+    records compared with what the property demands.  ("ok" | "bad" | "undecided", detail) - "bad" carries the counterexample."""
+    col = Collector(repo, None)
+    for cls, names, module, level, want in CONV_SAMPLES:
+        if cls not in gram:
+            continue
+        leaf = import_leaf(gram, cls, names, module=module, level=level, symbolic=False)
+        tree = node(gram, "Module", body=[filler(gram, 1), node(gram, "If", test=node(gram, "Name", id="x"), body=[filler(gram, 0)], orelse=[leaf])])
+        try:
+            runs = col.run(tree, "zz", set(CONV_INTERNAL), CONV_IMPORTER)
+        except Unsupported as u:
+            return "undecided", u.msg
+        if len(runs) != 1 or runs[0].outcome != "return" or col.fallbacks:
+            return "undecided", f"{len(runs)} paths / {runs[0].outcome}" if runs else "no run"
+        got = [(importer, importee) for _rec, importer, importee in runs[0].value]
+        if not all(isinstance(a, str) and isinstance(b, str) for a, b in got):
+            return "undecided", "records with symbolic names on constant input"
+        form = f"import {', '.join(names)}" if cls == "Import" else f"from {'.' * level}{module or ''} import {', '.join(names)}"
+        if sorted(got) != sorted((CONV_IMPORTER, w) for w in want):
+            return "bad", f"`{form}` in module `{CONV_IMPORTER}` (internal modules {sorted(CONV_INTERNAL)}) yields the imports {sorted(b for _a, b in got)} from {sorted({a for a, _b in got})} - the property demands {sorted(want)} from ['{CONV_IMPORTER}']"
+    return "ok", ""
+
+
 def run_r2_r3_r4(repo: Repo, res: Result, gram: dict, col: Collector) -> tuple[list[str], str | None]:
     """Returns the import classes that are dispatched at all (usable as leaves for R1) and the fq of the ancestor function seen in R4."""
     fi = col.entry
     key = f"{fi.relpath}::{fi.qualname}"
     wh = where(fi, fi.node)
+    conv = run_conv_samples(repo, gram)
+    res.analysed["conversion_samples"] = conv[0]
+    if conv[0] == "bad":
+        res.add("C02.R3", f"{key} [on constants]", False, conv[1], wh, kind="flow")
+    real_undecide = res.undecide
+
+    def undecide(rule: str, construct: str, detail: str, at: str = "") -> None:
+        """No symbolic verdict: the decision on constants stands in for it when there is one."""
+        if conv[0] == "ok":
+            res.add(rule, construct + " [on constants]", True, f"the symbolic analysis has no verdict ({detail[:200]}); on {len(CONV_SAMPLES)} constant import statements the records are the demanded ones", at or wh, kind="flow")
+        elif conv[0] == "undecided":
+            real_undecide(rule, construct, detail, at)
     usable: list[str] = []
     hierarchy_fq: str | None = None
     n2 = n3 = n4 = 0
@@ -375,7 +433,7 @@ def run_r2_r3_r4(repo: Repo, res: Result, gram: dict, col: Collector) -> tuple[l
         try:
             runs = col.run(case.tree, case.X, case.S, case.F)
         except Unsupported as u:
-            res.undecide("C02.R2", f"{key}::dispatch {cls}", f"the symbolic executor cannot interpret the conversion of ast.{cls}: {u.msg}", u.where() or wh)
+            undecide("C02.R2", f"{key}::dispatch {cls}", f"the symbolic executor cannot interpret the conversion of ast.{cls}: {u.msg}", u.where() or wh)
             n2, n3, n4 = n2 + 4, n3 + 2, n4 + 1  # attempted: the floors must not mask the reason
             continue
         L0 = App("eq", (case.L, 0))
@@ -392,8 +450,11 @@ def run_r2_r3_r4(repo: Repo, res: Result, gram: dict, col: Collector) -> tuple[l
         problems: dict[str, list[str]] = {"count": [], "importer": [], "raise": [], "plain": [], "indep": [], "consult": [], "from": [], "anchor": [], "level": []}
         undecided: list[str] = []
         sites: dict[str, str] = {}
+        sampled: tuple[str, str] | None = None
         for r in feasible:
             pc = fmt_path(r)
+            if r.outcome == "loop-body":
+                continue  # one iteration of a loop of unknown length explored on its own: not a result of the conversion
             if r.outcome != "return":
                 problems["raise"].append(f"the conversion raises {r.raised} when {pc}")
                 continue
@@ -427,6 +488,16 @@ def run_r2_r3_r4(repo: Repo, res: Result, gram: dict, col: Collector) -> tuple[l
                 else:
                     head, rest = split_anchor(importee)
                     verdict, fq = check_anchor(head, case)
+                    if verdict is not None and any(mentions(a, case.L) and a != L0 for a in r.path):
+                        verdict = "undecided"  # the path has pinned the level (an unrolled loop, a comparison): the term need not mention it
+                    if verdict == "undecided":
+                        # a spelling the term comparison does not know: decide it on concrete importers and levels instead
+                        if sampled is None:
+                            sampled = anchor_by_samples(repo, gram, cls)
+                        if sampled[0] == "ok":
+                            verdict = None
+                        elif sampled[0] == "bad":
+                            verdict = sampled[1]
                     if verdict == "undecided":
                         undecided.append(f"the package a relative import is resolved against is computed as {show(head)}, a shape the executor cannot compare with ancestors(importer)[-level]")
                         continue
@@ -469,15 +540,15 @@ def run_r2_r3_r4(repo: Repo, res: Result, gram: dict, col: Collector) -> tuple[l
                     problems["from"].append(f"`{form}` names {show(importee)} when {pc}")
                     sites.setdefault("from", rec.site)
         for u in undecided[:1]:
-            res.undecide("C02.R4", f"{key}::{cls} relative anchor", u, wh)
+            undecide("C02.R4", f"{key}::{cls} relative anchor", u, wh)
         odd = [a for r in feasible for a, _v in r.trace if mentions(a, case.S) and not ((a.fn == "in" and a.args[1] == case.S and not mentions(a.args[0], case.S)) or a == App("truthy", (case.S,)))]
         if odd and any(problems[k] for k in ("consult", "from", "plain")):
-            res.undecide("C02.R3", f"{key}::{cls} conversion", f"the internal-module set is consulted in a way the executor cannot relate to `P.n in internal_modules`: {show(odd[0])}", wh)
+            undecide("C02.R3", f"{key}::{cls} conversion", f"the internal-module set is consulted in a way the executor cannot relate to `P.n in internal_modules`: {show(odd[0])}", wh)
             continue
         new_fallbacks = sorted(x for x in col.fallbacks - before if not any(x.startswith(o + " ") for o in col.opaque))
         if new_fallbacks and any(problems.values()):
             # a helper could only be treated as an uninterpreted function: mismatches with the specification may be artefacts of that
-            res.undecide("C02.R3", f"{key}::{cls} conversion", f"part of the conversion cannot be interpreted: {new_fallbacks[0]}", wh)
+            undecide("C02.R3", f"{key}::{cls} conversion", f"part of the conversion cannot be interpreted: {new_fallbacks[0]}", wh)
             continue
 
         def add(rule: str, what: str, kinds: list[str], good: str) -> None:
@@ -502,6 +573,38 @@ def run_r2_r3_r4(repo: Repo, res: Result, gram: dict, col: Collector) -> tuple[l
     return usable, hierarchy_fq
 
 
+def anchor_by_samples(repo: Repo, gram: dict, cls: str) -> tuple[str, str]:
+    """Decides the anchor of relative imports on concrete importers and levels (every helper interpreted, nothing opaque): with
+    importer `pa.pb.pc.pd` and level k the importee must start with the importer minus its last k components.  ("ok" | "bad" |
+    "undecided", detail) - "bad" carries a concrete counterexample."""
+    col = Collector(repo, None)
+    for F, k in (("pa.pb.pc.pd", 1), ("pa.pb.pc.pd", 2), ("pa.pb.pc.pd", 3), ("qa.qb", 1)):
+        expected = ".".join(F.split(".")[:-k])
+        for P in (Sym("P", "str"), None):
+            if not any(f == "module" for f, _ in gram[cls]) and P is not None:
+                continue
+            tree = node(gram, "Module", body=[import_leaf(gram, cls, ["n1"], module=P, level=k)])
+            try:
+                runs = col.run(tree, Sym("prefix", "anystr"), Sym("internal", "set"), F)
+            except Unsupported as u:
+                return "undecided", u.msg
+            seen = 0
+            for r in runs:
+                if r.outcome != "return":
+                    continue
+                for _rec, _importer, importee in r.value:
+                    seen += 1
+                    lead = importee.parts[0] if isinstance(importee, Cat) else importee
+                    if not isinstance(lead, str):
+                        return "undecided", f"the importee {show(importee)} of a relative import in module {F} does not start with a constant package"
+                    if lead != expected + ".":
+                        form = f"from {'.' * k}{'P' if P is not None else ''} import n"
+                        return "bad", f"`{form}` in module `{F}` names {show(importee)}: resolved against `{lead.rstrip('.')}` instead of `{expected}` (the importer without its last {k} component(s))"
+            if not seen:
+                return "undecided", f"no record for a relative import of level {k} in module {F}"
+    return "ok", ""
+
+
 def check_anchor(head: Any, case: Case) -> tuple[str | None, str | None]:
     """None if `head` is ancestors(importer)[-level]; a violation text; or 'undecided'. Second value: fq of the ancestors function.
 
@@ -510,6 +613,8 @@ def check_anchor(head: Any, case: Case) -> tuple[str | None, str | None]:
       importer.rsplit(".", level)[0],  ".".join(importer.split(".")[:-level])
     """
     F, L = case.F, case.L
+    if any(isinstance(x, Sym) and "#" in x.name for x in subterms(head)) or any(isinstance(x, App) and x.fn in ("seq", "open", "elem", "after") for x in subterms(head)):
+        return "undecided", None  # computed by a loop of unknown length (the executor forgot what the loop did): decided on samples
     if isinstance(head, Term) and not mentions(head, L):
         return f"the package a relative import is resolved against ({show(head)}) does not depend on the statement's level", None
     if isinstance(head, Term) and not mentions(head, F):
@@ -696,11 +801,26 @@ def run_r5_graph(repo: Repo, res: Result) -> None:
     def entry(it):
         return it.instantiate(g, [[Sym("module", "str")], [R], Sym("level_limit", "optint")], {}, None, None)
 
+    sampled = run_r5_samples(repo)
+    res.analysed["graph_samples"] = sampled[0]
+    if sampled[0] == "bad":
+        res.add("C02.R5", key + " [on constants]", False, sampled[1], sampled[2] or wh, kind="flow")
+
+    stood_in: list = []
+
+    def give_up(detail: str, at: str) -> None:
+        """No symbolic verdict: the decision on constants stands in for it when there is one."""
+        if sampled[0] == "ok" and not stood_in:
+            stood_in.append(detail)
+            res.add("C02.R5", key + " [on constants]", True, f"the symbolic analysis has no verdict ({detail[:200]}); on {len(SAMPLE_IMPORTS)} sample imports and four level limits the graph has exactly the demanded import edges and nodes", wh, kind="flow")
+        elif sampled[0] == "undecided":
+            res.undecide("C02.R5", key, detail, at)
+
     try:
         ex = Explorer(repo, opaque={f"{TYPES_MOD}::get_parent_modules"}, split_calls=True, max_runs=6000)
         runs = ex.explore(entry)
     except Unsupported as u:
-        res.undecide("C02.R5", key, f"the symbolic executor cannot interpret the graph construction: {u.msg}", u.where() or wh)
+        give_up(f"the symbolic executor cannot interpret the graph construction: {u.msg}", u.where() or wh)
         return
     res.analysed["graph_paths"] = len(runs)
 
@@ -722,13 +842,27 @@ def run_r5_graph(repo: Repo, res: Result) -> None:
     hier = [attrs(e) for r in runs for e in r.effects if endpoints(e) is not None and not ("A" in "".join(endpoints(e)) and "B" in "".join(endpoints(e)))]
     hier_marker = {k: v for k, v in hier[0].items() if isinstance(v, bool) and all(h.get(k) is v for h in hier)} if hier else {}
 
+    murky: set[str] = set()  # names of collections asked for an endpoint whose relation to the nodes of the graph is not understood
+    ledgers: set[str] = set()  # names of native collections whose members the construction turns into nodes (recorded construction)
+
     def known_node(r: Run, e, t: Any) -> bool:
-        """has_node(t) was established before the edge is added and no node has been removed since."""
+        """has_node(t) was established before the edge is added and no node has been removed since - or, where the construction is
+        recorded first and materialised later: t was found in a collection, and as a member of it was added as a node before the edge."""
+        removers = ("remove_node", "remove_nodes_from", "clear")
         for at, v in e.path.items():
             if v and at.fn.startswith("hasnode@") and at.args == (e.obj.name, t):
                 since = int(at.fn.split("@")[1])
-                if since <= e.version and not any(x.kind == "ext" and x.obj is e.obj and x.name in ("remove_node", "remove_nodes_from", "clear") and since <= x.version < e.version for x in r.effects):
+                if since <= e.version and not any(x.kind == "ext" and x.obj is e.obj and x.name in removers and since <= x.version < e.version for x in r.effects):
                     return True
+        for at, v in e.path.items():
+            if v and at.fn.startswith("member@") and at.args[1] == t:
+                for x in r.effects:
+                    if x is e:
+                        break
+                    if x.kind == "ext" and x.obj is e.obj and x.name == "add_node" and x.args and x.args[0] == t and (at.args[0], t) in x.origins:
+                        if not any(y.kind == "ext" and y.obj is e.obj and y.name in removers and x.version <= y.version < e.version for y in r.effects):
+                            ledgers.add(at.args[0])
+                            return True
         return False
 
     def same_by_equalities(r: Run) -> bool:
@@ -767,6 +901,11 @@ def run_r5_graph(repo: Repo, res: Result) -> None:
             n_edges += 1
             edge_where = e.where or edge_where
             x, y = e.args[0], e.args[1]
+            if "AB" in ep:
+                # an endpoint computed from both sides of the record (or read back from an opaque collection that holds both): the
+                # executor cannot tell which way the edge runs - no evidence of a wrong orientation
+                unknown.append(f"an edge is added from {show(x)[:200]} to {show(y)[:200]}: the executor cannot separate importer and importee in these endpoints")
+                continue
             if ep != ("A", "B"):
                 orient_bad.append(f"an edge is added from {show(x)} to {show(y)}: its endpoints are not (importer, importee) of the import record")
                 continue
@@ -782,10 +921,25 @@ def run_r5_graph(repo: Repo, res: Result) -> None:
                 first = e.n_decisions
             for t in (x, y):
                 if not known_node(r, e, t):
+                    asked = [at for at, v in e.path.items() if v and at.fn.startswith("member@") and at.args[1] == t]
+                    about_graph = [at for at, v in e.path.items() if not at.fn.startswith(("hasnode@", "hasedge@", "member@")) and mentions(at, t) and any(isinstance(x, str) and x == e.obj.name for x in subterms(at))]
+                    if about_graph and not asked:
+                        # something about this endpoint and the graph was asked - in a form the executor does not understand
+                        unknown.append(f"the edge {show(x)} -> {show(y)} is added after the condition {show(about_graph[0])[:200]} was decided: the executor cannot tell whether it establishes that {show(t)} is a node")
+                        continue
+                    if asked:
+                        # a membership test did precede the edge - in a collection the executor cannot relate to the nodes of the graph
+                        unknown.append(f"the edge {show(x)} -> {show(y)} is added after {show(t)} was found in the collection {asked[0].args[0]}: the executor cannot tell whether that collection holds the known modules")
+                        murky.add(asked[0].args[0])
+                        continue
                     known_bad.append(f"the edge {show(x)} -> {show(y)} is added without a check that {show(t)} is a known module: imported names that are not modules become edges / nodes")
         if first is not None:
             with_edge.append((r, first))
         elif r.outcome == "raise":
+            # module names are strings (`all_modules: list[str]`, `Import.importer() -> str`, ...): a path on which one of them is None
+            # (`if node is None: raise ValueError`, which networkx' add_node does as well) is outside the domain of the property
+            if any(v and at.fn == "isnone" and not (isinstance(at.args[0], Sym) and at.args[0].kind in ("optint", "optstr")) for at, v in r.path.items()):
+                continue
             unknown.append(f"graph construction raises {r.raised} when {fmt_path(r)}")
 
     def excuse(r: Run, at: App, v: bool) -> bool:
@@ -793,6 +947,10 @@ def run_r5_graph(repo: Repo, res: Result) -> None:
             return True
         if at.fn.startswith("hasnode@") and not v and about(at.args[1]) in ("A", "B"):
             return True
+        if at.fn.startswith("member@") and not v and at.args[0] in ledgers and about(at.args[1]) in ("A", "B"):
+            return True  # not recorded as a node: an unknown endpoint
+        if at.fn.startswith("member@") and v and isinstance(at.args[1], tuple) and len(at.args[1]) >= 2 and about(at.args[1][0]) == "A" and about(at.args[1][1]) == "B":
+            return True  # the pair (importer, importee) is recorded already: like has_edge
         if at.fn.startswith("hasedge@") and v and about(at.args[1]) == "A" and about(at.args[2]) == "B":
             return True
         return False
@@ -814,26 +972,145 @@ def run_r5_graph(repo: Repo, res: Result) -> None:
             continue  # ended (or was cut off) before anything distinguishes it from a path that adds the edge
         at, v = r.trace[best_j]
         if at.fn in ("loop", "call") or any(excuse(r, a2, v2) for a2, v2 in r.trace[: best_j + 1]):
-            continue  # (an edge that exists already may be kept or replaced depending on its kind: everything decided after has_edge is about that)
+            continue
+        if at.fn.startswith("member@") and at.args[0] in murky:
+            continue  # already reported as undecided  # (an edge that exists already may be kept or replaced depending on its kind: everything decided after has_edge is about that)
         drop_bad.append(f"the import edge importer -> importee is not added when {show(at)} = {v} (on a path where both are known, distinct modules and no such edge exists yet, it is added only when {show(at)} = {not v})")
     if ex.fallbacks and (orient_bad or known_bad or drop_bad or not n_edges):
         # a helper could only be treated as an uninterpreted function: what looks like a violation may be an artefact of that
-        res.undecide("C02.R5", key, f"part of the graph construction cannot be interpreted: {sorted(ex.fallbacks)[0]}", wh)
+        give_up(f"part of the graph construction cannot be interpreted: {sorted(ex.fallbacks)[0]}", wh)
         return
     for u in unknown[:1]:
-        res.undecide("C02.R5", key, u, wh)
+        give_up(u, wh)
     if unknown and not n_edges:
         return
     if not any(e.kind == "ext" for r in runs for e in r.effects):
-        res.undecide("C02.R5", key, "the construction never calls a mutator of a networkx graph object the executor recognises (nx.DiGraph())", wh)
+        give_up("the construction never calls a mutator of a networkx graph object the executor recognises (nx.DiGraph())", wh)
         return
     ok = n_edges > 0
+    if not ok:
+        opaque = [e for r in runs for e in r.effects if e.kind == "ext" and e.name in ("add_edge", "add_edges_from") and any(mentions(x, R) for x in e.args)]
+        if opaque:
+            # edges are built from the record - through values the executor could not reduce to importer() / importee()
+            give_up(f"an edge is added between {show(opaque[0].args[0])[:160]} and {show(opaque[0].args[1])[:160] if len(opaque[0].args) > 1 else '...'}: derived from the import record in a way the executor cannot interpret", opaque[0].where or wh)
+            return
     res.add("C02.R5", key + " [import edge exists]", ok, f"import edges are added on {n_edges} path(s)" if ok else "no path of the graph construction adds an edge for an import record", wh, nontrivial=False)
     if not ok:
         return
     res.add("C02.R5", key + " [orientation]", not orient_bad, "every import edge runs from imp.importer() to imp.importee() of one record" if not orient_bad else orient_bad[0], edge_where, kind="flow")
     res.add("C02.R5", key + " [both endpoints are known modules]", not known_bad, "an import edge is only added when has_node holds for both endpoints in the same graph state" if not known_bad else known_bad[0], edge_where, kind="dominance")
     res.add("C02.R5", key + " [no other reason to drop an edge]", not drop_bad, "an edge between two known modules is only suppressed as a self-edge or because it is already present" if not drop_bad else drop_bad[0] + ": imports between two known modules silently disappear from the architecture", edge_where, kind="dominance")
+
+
+# --------------------------------------------------------------------------- R5 on samples
+
+SAMPLE_MODULES = ["top", "top.pkg", "top.pkg.mod", "top.pkg.mo", "top.pkg.sub", "top.pkg.sub.deep", "top.pkgx", "top.other", "top.other.leaf", "solo"]
+SAMPLE_IMPORTS = [
+    ("top.pkg.mod", "top.other.leaf"),  # across packages
+    ("top.pkg.mod", "top.pkg.mo"),  # sibling whose name is a string prefix of the importer's
+    ("top.pkg.mod", "top.pkg.sub.deep"),  # into a sibling sub package
+    ("top.pkg", "top.pkg.sub.deep"),  # a package imports a module below itself (not its direct child)
+    ("top.other.leaf", "top.pkg"),  # a package as importee
+    ("top.pkg.mod", "external.lib"),  # not a module of the project
+    ("top.pkg.mod", "top.pkg.mod"),  # itself
+    ("top.pkg.mod", "top.other.leaf"),  # a second time
+    ("solo", "top"),
+    ("top.pkg.sub.deep", "top.pkg"),  # own ancestor: outside the claim
+    ("top.pkg.mod", "top.other"),  # second and third import of one importer
+    ("top.pkg.mod", "top.pkgx"),  # package whose name is a string extension of the importer's package
+    ("top.other", "solo"),
+    ("top.pkg.mo", "top.pkg.mod"),  # importer's name is a string prefix of the importee's
+]
+
+
+def run_r5_samples(repo: Repo) -> tuple[str, str, str]:
+    """The graph construction interpreted on constants (nothing symbolic, the networkx graph modelled concretely), read back through
+    the public API (`nodes`, `edges`, `parent_child_relationship`) and compared with what the property demands for these inputs:
+    an import edge flat(importer) -> flat(importee) exactly for the imports whose ends are known, distinct nodes (imports of an own
+    ancestor, and of a direct child whose parent-child edge takes precedence in today's code, are not judged); no node that is not a
+    module.  ("ok" | "bad" | "undecided", detail, where)"""
+    g = repo.cls(NXGRAPH, "NetworkxGraph")
+    rec_cls = None
+    for c in sorted(import_record_classes(repo), key=lambda c: c.fq):
+        # the record class that can be made from (importer, importee) alone and reports them back (AbsoluteImport today)
+
+        def probe(it, c=c):
+            r = it.instantiate(c, ["sample.importer", "sample.importee"], {}, None, None)
+            return it.call(it.getattr_value(r, "importer"), [], {}) == "sample.importer" and it.call(it.getattr_value(r, "importee"), [], {}) == "sample.importee"
+
+        try:
+            probes = Explorer(repo, max_runs=5).explore(probe)
+        except Unsupported:
+            continue
+        if len(probes) == 1 and probes[0].outcome == "return" and probes[0].value is True:
+            rec_cls = c
+            break
+    if rec_cls is None:
+        return "undecided", "no import record class that can be constructed from (importer, importee)", ""
+
+    def parents(n: str) -> list[str]:
+        parts = n.split(".")
+        return [".".join(parts[:i]) for i in range(1, len(parts))]
+
+    for limit in (None, 1, 2, 0):
+
+        def flat(n: str) -> str:
+            return n if limit is None else ".".join(n.split(".")[: limit + 1])
+
+        def entry(it):
+            recs = [it.instantiate(rec_cls, [a, b], {}, None, None) for a, b in SAMPLE_IMPORTS]
+            for r, (a, b) in zip(recs, SAMPLE_IMPORTS):
+                if it.call(it.getattr_value(r, "importer"), [], {}) != a or it.call(it.getattr_value(r, "importee"), [], {}) != b:
+                    raise Unsupported(f"{rec_cls.name}({a!r}, {b!r}) does not report these as importer() / importee()")
+            gobj = it.instantiate(g, [list(SAMPLE_MODULES), recs, limit], {}, None, None)
+            kind, nodes = it.iterate(it.getattr_value(gobj, "nodes"), g.node, None)
+            kind2, edges = it.iterate(it.getattr_value(gobj, "edges"), g.node, None)
+            if kind != "concrete" or kind2 != "concrete":
+                raise Unsupported("nodes / edges of the constructed graph are not concrete")
+            out = []
+            for e in edges:
+                u, v = e
+                out.append((u, v, it.truth(it.call(it.getattr_value(gobj, "parent_child_relationship"), [u, v], {}))))
+            return list(nodes), out
+
+        ex = Explorer(repo, split_calls=False, max_runs=50)
+        ex.concrete_graph = True
+        try:
+            runs = ex.explore(entry)
+        except Unsupported as u:
+            return "undecided", f"the graph construction cannot be interpreted on constants: {u.msg}", u.where()
+        if len(runs) != 1 or runs[0].outcome != "return" or ex.fallbacks:
+            why = f"raises {runs[0].raised}" if len(runs) == 1 and runs[0].outcome == "raise" else f"{len(runs)} paths" if len(runs) != 1 else f"uninterpreted helper {sorted(ex.fallbacks)[0]}" if ex.fallbacks else runs[0].outcome
+            return "undecided", f"the graph construction on constants (level_limit={limit}) does not come out as one concrete run: {why}", ""
+        nodes, edges = runs[0].value
+        if not all(isinstance(n, str) for n in nodes) or not all(isinstance(u, str) and isinstance(v, str) for u, v, _h in edges):
+            return "undecided", "nodes of the constructed graph are not plain names", ""
+        known = {flat(m) for mod in SAMPLE_MODULES for m in [*parents(mod), mod]}
+        expected: set[tuple[str, str]] = set()
+        lenient: set[tuple[str, str]] = set()
+        for a, b in SAMPLE_IMPORTS:
+            u, v = flat(a), flat(b)
+            if u == v or u not in known or v not in known:
+                continue
+            if v in parents(u) or (parents(v) and parents(v)[-1] == u):
+                lenient.add((u, v))
+            else:
+                expected.add((u, v))
+        got = {(u, v) for u, v, hier in edges if not hier}
+        inputs = f"all_modules={SAMPLE_MODULES}, level_limit={limit}"
+        stray = [n for n in nodes if n not in known]
+        if stray:
+            culprit = next((f"{a} -> {b}" for a, b in SAMPLE_IMPORTS for x in (a, b) if stray[0] == flat(x) or stray[0] in [flat(p) for p in parents(x)]), "?")
+            return "bad", f"with {inputs} and the import `{culprit}` the graph has the node `{stray[0]}`, which is not a module: imported names that are not modules become nodes (and later imports of them edges)", ""
+        missing = sorted(expected - got)
+        if missing:
+            a, b = next((a, b) for a, b in SAMPLE_IMPORTS if (flat(a), flat(b)) == missing[0])
+            marked = any((u, v) == missing[0] for u, v, hier in edges if hier)
+            return "bad", f"with {inputs} the import `{a}` -> `{b}` yields no import edge `{missing[0][0]}` -> `{missing[0][1]}`" + (" (the edge is there, marked as a parent-child edge)" if marked else "") + ": an import between two known, distinct modules disappears from the architecture", ""
+        extra = sorted(got - expected - lenient)
+        if extra:
+            return "bad", f"with {inputs} the graph has the import edge `{extra[0][0]}` -> `{extra[0][1]}` although no import record (after flattening) runs from the first to the second: an edge that no import statement accounts for", ""
+    return "ok", "", ""
 
 
 # --------------------------------------------------------------------------- R6
